@@ -83,7 +83,7 @@ fn parse_octal(f: &[u8]) -> Result<usize, String> {
     for &c in f {
         match c {
             b'0'..=b'7' => {
-                v = v * 8 + (c - b'0') as usize;
+                v = v.saturating_mul(8).saturating_add((c - b'0') as usize);
                 seen = true;
             }
             b' ' | 0 => {
